@@ -33,13 +33,24 @@ class Eq:
     """Partition of terms into equivalence classes plus disequalities between
     classes; immutable."""
 
-    def __init__(self, classes=(), diseq=(), flags=()):
+    def __init__(self, classes=(), diseq=(), flags=(), facts=()):
         self.classes = frozenset(frozenset(c) for c in classes if len(c) > 0)
         self.diseq = frozenset(frozenset(d) for d in diseq)
         self.flags = frozenset(flags)
+        # relational facts: ("diff", n, a, b): n = a - b ; ("succ", x, y): x = y + 1
+        self.facts = frozenset(facts)
 
     def key(self):
-        return (self.classes, self.diseq, self.flags)
+        return (self.classes, self.diseq, self.flags, self.facts)
+
+    def fact(self, f):
+        return Eq(self.classes, self.diseq, self.flags, set(self.facts) | {f})
+
+    def has_succ(self, x, y):
+        for f in self.facts:
+            if f[0] == "succ" and self.same(f[1], x) and self.same(f[2], y):
+                return True
+        return False
 
     def cls(self, t):
         for c in self.classes:
@@ -66,7 +77,8 @@ class Eq:
     def forget(self, t):
         classes = [c - {t} for c in self.classes]
         diseq = [d for d in self.diseq if t not in d]
-        return Eq(classes, diseq, self.flags)
+        facts = [f for f in self.facts if t not in f[1:]]
+        return Eq(classes, diseq, self.flags, facts)
 
     def assign(self, t, src):
         e = self.forget(t)
@@ -74,22 +86,31 @@ class Eq:
             return e
         cs = e.cls(src)
         classes = [c for c in e.classes if c != cs] + [cs | {t, src}]
-        return Eq(classes, e.diseq, e.flags)
+        return Eq(classes, e.diseq, e.flags, e.facts)
 
     def assume_eq(self, a, b):
         if self.differ(a, b):
             return None  # infeasible
         ca, cb = self.cls(a), self.cls(b)
         classes = [c for c in self.classes if c != ca and c != cb] + [ca | cb]
-        return Eq(classes, self.diseq, self.flags)
+        e = Eq(classes, self.diseq, self.flags, self.facts)
+        # n = a - b and n = 0  =>  a = b
+        zero = ("c", 0)
+        for f in self.facts:
+            if f[0] == "diff" and e.same(f[1], zero) and not e.same(f[2], f[3]):
+                e2 = e.assume_eq(f[2], f[3])
+                if e2 is None:
+                    return None
+                e = e2
+        return e
 
     def assume_ne(self, a, b):
         if self.same(a, b):
             return None
-        return Eq(self.classes, set(self.diseq) | {frozenset([a, b])}, self.flags)
+        return Eq(self.classes, set(self.diseq) | {frozenset([a, b])}, self.flags, self.facts)
 
     def flag(self, f):
-        return Eq(self.classes, self.diseq, set(self.flags) | {f})
+        return Eq(self.classes, self.diseq, set(self.flags) | {f}, self.facts)
 
 
 def rule_empty_drained(prog, res):
@@ -148,6 +169,11 @@ def rule_empty_drained(prog, res):
                 e = e.flag("status")
             if op == "=":
                 e = e.assign(t, term(rhs))
+                r0 = ir.strip(rhs)
+                if isinstance(r0, dict) and r0.get("k") == "bin" and r0.get("op") == "-":
+                    ta, tb = term(r0["l"]), term(r0["r"])
+                    if ta is not None and tb is not None and t not in (ta, tb):
+                        e = e.fact(("diff", t, ta, tb))
             else:
                 e = e.forget(t)
         return e
@@ -160,9 +186,17 @@ def rule_empty_drained(prog, res):
             return assume(e, c["e"], not outcome)
         if c.get("k") == "bin" and c["op"] in ("==", "!="):
             a, b = term(c["l"]), term(c["r"])
+            eq = (c["op"] == "==") == outcome
             if a is not None and b is not None:
-                eq = (c["op"] == "==") == outcome
                 return e.assume_eq(a, b) if eq else e.assume_ne(a, b)
+            # x == y + 1
+            for x, y in ((c["l"], c["r"]), (c["r"], c["l"])):
+                y0 = ir.strip(y)
+                tx = term(x)
+                if tx is not None and isinstance(y0, dict) and y0.get("k") == "bin" and y0.get("op") == "+" and ir.is_const(y0["r"], 1):
+                    ty = term(y0["l"])
+                    if ty is not None and eq:
+                        return e.fact(("succ", tx, ty))
             return e
         if c.get("k") == "bin" and c["op"] in ("<", ">"):
             a, b = term(c["l"]), term(c["r"])
@@ -217,8 +251,15 @@ def rule_empty_drained(prog, res):
             continue  # a non-empty region is returned
         n += 1
         okp, okc = e.same(T_POS, H), e.same(T_CYC, C)
+        HIGH = ("f", "channel", "high")
+        # the same cursor, un-normalised: at the end of the previous lap while
+        # the writer sits at the very start of the next one
+        alt = e.same(T_POS, HIGH) and e.same(H, Z) and e.has_succ(C, T_CYC)
         inst = "channel_read_map: empty return, path state #%d" % n
-        if okp and okc:
+        if alt and not (okp and okc):
+            res.oblige(R, inst, True,
+                       "hold position = high, head = 0 and writer's lap = hold lap + 1: the same cursor, nothing committed beyond it", f.loc(ret))
+        elif okp and okc:
             res.oblige(R, inst, True,
                        "reader's hold position = head and hold lap = writer's lap are provable on this path", f.loc(ret))
         else:
@@ -654,4 +695,43 @@ def rule_stale_across_wait(prog, res, la, protected, rule="R-STALE-READ"):
                 res.fail(rule, inst, "%s|%s|%s" % (rule, f.name, v["n"]), f.loc(stale_use),
                          "%s computes '%s' from the readers' cursors before condition_variable_wait and uses it again after waking up (line %s) without re-reading: the wait releases the lock, readers move meanwhile, and the writer decides on a stale slowest reader"
                          % (f.name, v["n"], stale_use.get("line")))
+    return n
+
+
+def rule_cursor_pair(prog, res, la, rule="R-CURSOR-PAIR"):
+    """A reader's hold cursor is a (lap, position) pair: whenever the position
+    is reset to the start of the ring the lap is stored on the same path
+    (moving to offset 0 *is* a lap change); likewise head := 0 for the writer."""
+    n = 0
+    pairs = [(("channel", "holds.pos"), ("channel", "holds.cycles"), "a reader's hold"),
+             (("channel", "head"), ("channel", "cycle"), "the writer's")]
+    for f in channel_functions(prog):
+        if la.is_ctor_dtor(f, ("channel", "lock")):
+            continue
+        al = la.aliases(f)
+        for b, i, s in f.all_stmts():
+            for lv, op, rhs, w in ir.writes_of(s):
+                key = la.lvalue_key(f, lv, al)
+                for pk, ck, who in pairs:
+                    if key != pk or op != "=" or not ir.is_const(rhs, 0):
+                        # head = beg (a variable that may be 0) is covered by the beg != head branch
+                        continue
+                    n += 1
+                    res.touched(f)
+
+                    def lap_store(ss, ck=ck):
+                        for lv2, op2, rhs2, w2 in ir.writes_of(ss):
+                            if la.lvalue_key(f, lv2, al) == ck:
+                                return True
+                        return False
+                    after, _ = paths.all_paths_pass(f, (b.id, i), "exit", lap_store)
+                    before, _ = paths.all_paths_pass(f, "entry", {(b.id, i)}, lap_store)
+                    same_stmt = lap_store(s) or any(lap_store(x) for x in f.blocks[b.id].stmts[:i])
+                    inst = "%s:%s position reset of %s cursor comes with a lap store" % (f.name, s.get("line"), who)
+                    if after or same_stmt:
+                        res.oblige(rule, inst, True, "", f.loc(s))
+                    else:
+                        res.fail(rule, inst, "%s|%s|%s" % (rule, f.name, pk[1]), f.loc(s),
+                                 "%s moves %s position to the start of the ring without storing the lap on that path: the cursor now claims an offset in a lap it has already finished, and the next comparison with the writer treats unread data as overrun (or read data as new)"
+                                 % (f.name, who))
     return n
